@@ -14,7 +14,7 @@ MOD = 'netutils'
 LIB_RAISES = ['netaddr.AddrFormatError', 'ValueError', 'TypeError']
 
 
-def _netaddr_hook(v, val):
+def _netaddr_hook(v, val, hooks=None):
     """Evaluates the symbolic netaddr calls of the extracted tables with the
     installed netaddr library (trusted third party, not repository code)."""
     if isinstance(v, ExtRef) and v.name.startswith('netaddr.'):
@@ -26,7 +26,7 @@ def _netaddr_hook(v, val):
     if not (isinstance(v, T) and v.op in ('call', 'attr')):
         return NotImplemented
     import netaddr
-    hooks = [_netaddr_hook, rxmodel.hook]
+    hooks = hooks or [_netaddr_hook, rxmodel.hook]
     if v.op == 'attr' and len(v.args) == 2 and v.args[1] == 'cidr':
         base = ev(v.args[0], val, hooks)
         return base.cidr
